@@ -27,7 +27,8 @@ MANIFEST = {
     "text": "decides, per C back end (64-bit, bit-interleaved 32-bit, direct-XOR/generic): D1 each of the 12 "
             "rounds of ascon_permute is the specification's round as an exact polynomial identity over GF(2) in "
             "all 320 state bits, plus loop order and count, so permute(first_round) is the specified permutation "
-            "for every state; D2 the six byte-level state operations touch exactly the addressed canonical bytes "
+            "for every state (a restructured round loop is instead evaluated by constant propagation for every "
+            "first_round on fixed states: differences are reported, agreement is left unproved); D2 the six byte-level state operations touch exactly the addressed canonical bytes "
             "(all offsets; sizes sampled in quick, all in thorough; aliasing in == out included); D3 copy/init",
     "note": "the interpreter evaluates the LLVM IR of the functions over Boolean polynomials (no library code is "
             "executed and no solver is used); trusted: clang lowering, irdump, the ANF engine and the python "
